@@ -32,8 +32,13 @@ class World(object):
             vals = [S.to_instance(self.gen, t, v) for t, v in zip(case['rets'], case['rvals'])]
             if not vals: return None
             return vals[0] if len(vals) == 1 else tuple(vals)
-        svc = G.make_service(self.gen, [{'name': case['method'], 'args': [[f['n'], S.texpr(f['t'], f)] for f in case['args']],
-                                        'ret': ret, 'returns': returns, 'kw': kw}], self.seen)
+        m = {'name': case['method'], 'args': [[f['n'], S.texpr(f['t'], f)] for f in case['args']],
+             'ret': ret, 'returns': returns, 'kw': kw}
+        if case.get('inh') and fam != 'xml':
+            m['in_header'] = [S.texpr(t) for t in case['inh']]
+            m['out_header'] = [S.texpr(t) for t in case['outh']]
+            m['out_header_values'] = lambda: [S.to_instance(self.gen, t, v) for t, v in zip(case['outh'], case['outhvals'])]
+        svc = G.make_service(self.gen, [m], self.seen)
         inp, outp = E.protocols(fam, validator=validator)
         if poly or out_kw:
             outp = type(outp)(**dict(out_kw or {}, polymorphic=poly))
@@ -41,9 +46,13 @@ class World(object):
         self.app = Application([svc], case['tns'], in_protocol=inp, out_protocol=outp)
         self.wsgi = WsgiApplication(self.app)
 
-    def exchange(self):
+    def exchange(self, noise=None):
         c = self.case
-        env, body = E.request(self.gen, self.fam, c['method'], S.args_for_enc(c), style=c['style'])
+        headers = None
+        if c.get('inh') and self.fam != 'xml':
+            headers = [(t['name'], S.texpr(t), S.to_wire_value(t, v)) for t, v in zip(c['inh'], c['inhvals'])]
+        env, body = E.request(self.gen, self.fam, c['method'], S.args_for_enc(c, spelled=True), style=c['style'], noise=noise,
+                              headers=headers)
         del self.seen[:]
         res = E.send(self.wsgi, env, body)
         obs = {'ncalls': len(self.seen), 'status': res['status'], 'escape': res['escape'] or ''}
@@ -54,6 +63,13 @@ class World(object):
         if self.seen:
             got = self.seen[0][1]
             obs['args'] = [S.from_native(f['t'], x, repeated=f['max'] > 1) for f, x in zip(c['args'], got)]
+            if headers is not None:
+                ih = self.seen[0][2]
+                if ih is None:
+                    ih = [None] * len(c['inh'])
+                elif not isinstance(ih, (list, tuple)):
+                    ih = [ih]
+                obs['inh'] = [S.from_native(t, x) for t, x in zip(c['inh'], list(ih) + [None] * len(c['inh']))]
         else:
             obs['args'] = [['leaf', '?not-called'] for _ in c['args']]
         try:
@@ -73,10 +89,19 @@ def client_decode(w):
         return None          # the Spyne client supports the wrapped style only
     cl = LoopbackClient(w.wsgi, w.app)
     args = [S.to_instance(w.gen, f['t'], v) for f, v in zip(c['args'], c['vals'])]
+    # the first argument positionally, the others by keyword (both calling conventions of the client)
+    kwargs = {f['n']: a for f, a in list(zip(c['args'], args))[1:]}
+    del w.seen[:]
     try:
-        r = getattr(cl.service, c['method'])(*args)
+        r = getattr(cl.service, c['method'])(*args[:1], **kwargs)
     except Exception as e:
         return [['leaf', '?client-raises-%s' % type(e).__name__] for _ in c['rets']]
+    if w.seen:
+        got = [S.from_native(f['t'], x, repeated=f['max'] > 1) for f, x in zip(c['args'], w.seen[0][1])]
+        want = [S.from_native(f['t'], x, repeated=f['max'] > 1) for f, x in zip(c['args'], args)]
+        if json.dumps(got) != json.dumps(want) and any(f['max'] <= 1 for f in c['args']):
+            # what the client sent is not what it was given (reported through the decode clause)
+            return [['leaf', '?client-sent-other-arguments'] for _ in c['rets']] or None
     if len(c['rets']) == 0:
         return []
     if len(c['rets']) == 1:
@@ -142,10 +167,13 @@ def run(ctx):
             for vi, v in enumerate(vals):
                 if ctx.quick and c['id'] == 'T2' and (i + fi + vi + ctx.seed) % 3 != 0:
                     continue
+                if c['id'] == 'T9' and fam == 'xml':
+                    continue          # XmlDocument has no envelope, hence no headers
                 try:
                     w = World(c, fam, v)
-                    obs = w.exchange()
-                    if v == 'soft' and (not ctx.quick or (i + fi) % 4 == ctx.seed % 4):
+                    # one validator per case sees the same document with comments sprinkled in
+                    obs = w.exchange(noise='comments' if (i + fi + vi) % 3 == 0 else None)
+                    if v == 'soft' and c['id'] != 'T9' and (not ctx.quick or (i + fi) % 4 == ctx.seed % 4):
                         cd = client_decode(w)
                         if cd is not None:
                             obs['client'] = cd
@@ -172,7 +200,7 @@ def judge(ctx, recs, pid, module='TraceXml', clauses_ignored=()):
     tf = os.path.join(ctx.work, 'xml_traces.ndjson')
     with open(tf, 'w') as f:
         for r in recs:
-            o = {k: v for k, v in r['obs'].items() if k in ('req', 'resp', 'args', 'ncalls', 'client', 'zeep', 'zeepargs')}
+            o = {k: v for k, v in r['obs'].items() if k in ('req', 'resp', 'args', 'ncalls', 'client', 'zeep', 'zeepargs', 'inh')}
             f.write(json.dumps({'c': r['c'], 'fam': r['fam'], 'obs': o}) + '\n')
     cfgt = pc.write_cfg(os.path.join(ctx.work, 'tracexml.cfg'), ['INIT Init', 'NEXT Next', 'CONSTRAINT Report', 'CHECK_DEADLOCK FALSE'])
     rt = tlc.run(module, cfgt, ctx.work, env={'TRACE_FILE': tf}, timeout=3000)
